@@ -161,7 +161,9 @@ def make_recorder(clock):
         def OnEndIteration(self, savedNewPoints, solution):
             pts = list(savedNewPoints)
             self.items.extend(pts)
-            self.events.append(("iter", clock[0], (pts, solution)))
+            # values as they are at notification time (the local refinement later rewrites the best item in place)
+            snap = [(tuple(float(c) for c in it.GetY().floatVariables), float(it.GetZ())) for it in pts]
+            self.events.append(("iter", clock[0], (pts, solution), snap))
             if self.hook:
                 self.hook("iter", (pts, solution))
 
@@ -177,7 +179,7 @@ class Run:
     """One real Solver on a LoggedProblem, with a recording listener and captured stdout."""
 
     def __init__(self, recipe, params, refine=False, record=True, listeners=(), default_params=False,
-                 clock=None, max_calls="auto"):
+                 clock=None, max_calls="auto", sp_obj=None):
         from iOpt.solver import Solver
         from iOpt.solver_parametrs import SolverParameters
         self.recipe, self.params = recipe, params
@@ -192,7 +194,11 @@ class Run:
             self.n = recipe["n"]
         else:
             self.problem = LoggedProblem(recipe["n"], recipe["lower"], recipe["upper"], recipe["obj"], clock=clock)
-        if default_params:
+        if sp_obj is not None:
+            # a SolverParameters object the caller also hands to other solvers
+            self.sp = sp_obj
+            self.solver = Solver(self.problem, parameters=self.sp)
+        elif default_params:
             self.solver = Solver(self.problem)
             self.sp = self.solver.parameters
         else:
